@@ -8,7 +8,7 @@
    [lexpected OutAll (t,es)] = ListToken(tag t, es in iteration order);
    [lexpected OutLast (t,es)] = the token of iteration k-1 retagged t, or Token(None) tagged t when k = 0. *)
 From Coq Require Import List NArith ZArith Permutation.
-From SF Require Import Base.Str Base.Dec Tags.Model Gather.Model Gather.Proofs Loop.Model Loop.Proofs Loop.Net Loop.NetProofs Loop.NetReal.
+From SF Require Import Base.Str Base.Dec Tags.Model Gather.Model Gather.Proofs Loop.Model Loop.Proofs Loop.Net Loop.NetProofs Loop.NetReal Loop.CombK.
 Import ListNotations.
 Local Open Scope string_scope. Local Open Scope list_scope.
 
@@ -123,6 +123,30 @@ Theorem C06_loop_network_nonvacuous :
             lout (fst (ls s)) = [ListTok "0" [Tok "0.0" "0.0"]] /\ kof s [0%N] = 1.
 Proof. exact ex_real_run. Qed.
 
+(* k loop variables, STEP level only (Loop/CombK.v: LoopCombinatorStep with k input ports, per-port checklists and
+   `terminated`, the dot-product join of the k ports by tag, one re-tagging per combination; tied to the real step
+   with 2 and 3 ports by the correspondence).  The k-variable NETWORK is not modelled: C06_no_early_exit and
+   C06_loop_network are for one loop variable.  What the one-variable proofs use of the combinator step holds
+   port-wise for any k and any sequence of (port, token) arrivals: *)
+(* run() returns only when EVERY port has delivered its termination token and EVERY port's checklist is empty *)
+Theorem C06_combinator_k_exit : forall k (arr : list (nat * atok)),
+  kdone (ck_run k arr) = true ->
+  forall i, i < k -> In i (kterm (ck_run k arr)) /\ (forall t, ~ In (i, t) (kchk (ck_run k arr))).
+Proof. exact ck_done_inv. Qed.
+(* a token read on port i whose prefix is not on that port's checklist puts its tag there ... *)
+Theorem C06_combinator_k_checklist_add : forall k s i t,
+  kdone s = false -> armed s i = true -> ~ In (i, pre t) (kchk s) -> In (i, t) (kchk (ck_step k s (i, AT t))).
+Proof. exact ck_adds. Qed.
+(* ... and only an IterationTerminationToken with that tag read on the same port takes it off *)
+Theorem C06_combinator_k_checklist_keep : forall k s x i t,
+  In (i, t) (kchk s) -> x <> (i, AI t) -> In (i, t) (kchk (ck_step k s x)).
+Proof. exact ck_keeps. Qed.
+Example C06_combinator_k_example :
+  let arr := [(0, AT [0%N]); (1, AT [0%N]); (0, ATerm); (1, ATerm); (0, AI [0%N])] in
+  kdone (ck_run 2 arr) = false /\ kdone (ck_run 2 (arr ++ [(1, AI [0%N])])) = true /\
+  kout (ck_run 2 arr) = [(0, AT [0%N; 0%N]); (1, AT [0%N; 0%N])].
+Proof. vm_compute. repeat split; reflexivity. Qed.
+
 (* LoopCombinator: the first combination of an instance t gets t.0; the one built from the tokens of
    iteration c gets t.(c+1) -- for any state of the counters of the other instances, hence any interleaving *)
 Theorem C06_iteration_tags_first : forall im (t : tag),
@@ -169,5 +193,8 @@ Print Assumptions C06_loop_output_runs_until_term.
 Print Assumptions C06_loop_network.
 Print Assumptions C06_loop_network_nonvacuous.
 Print Assumptions C06_no_early_exit_nonvacuous.
+Print Assumptions C06_combinator_k_exit.
+Print Assumptions C06_combinator_k_checklist_add.
+Print Assumptions C06_combinator_k_checklist_keep.
 Print Assumptions C06_iteration_tags_first.
 Print Assumptions C06_iteration_tags_next.
